@@ -271,6 +271,10 @@ def reindent_options(rng):
         o['indent_width'] = rng.choice([1, 2, 3, 4, 8])
     if rng.random() < 0.4:
         o['wrap_after'] = rng.choice([0, 1, 5, 20, 80])
+    if o.get('indent_columns') and rng.random() < 0.4:
+        # indent_columns alone enforces reindent (documented in the
+        # option validation)
+        del o['reindent']
     return o
 
 
